@@ -168,6 +168,15 @@ def check(P: Project, R: Report) -> None:
             key = evs[0][4:evs[0].index("]=")]
             val = evs[0][evs[0].index("]=") + 2:]
             vdef_node = an.defs.get(val, ("", None))[1]
+            if vdef_node is None:
+                # the record constructed in the store statement itself (`self.sessions[k] = SessionInfo(...)`): read the
+                # substituted text back — it is exactly what the path stored
+                try:
+                    pv_ = ast.parse(val, mode="eval").body
+                    if isinstance(pv_, ast.Call):
+                        vdef_node = pv_
+                except SyntaxError:
+                    pass
             # the key may be read back from the record just built (`self.sessions[rec.session_id] = rec`): the same value
             if key == f"{val}.session_id" and isinstance(vdef_node, ast.Call):
                 kw = {k.arg: k.value for k in vdef_node.keywords if k.arg}
@@ -191,8 +200,8 @@ def check(P: Project, R: Report) -> None:
                     fields.get("session_id") == key
                     and fields.get("client_info") == cparams[0]
                     and fields.get("protocol_version") == cparams[1]
-                    and fields.get("created_at") == "time.time()"
-                    and fields.get("last_activity") == "time.time()"
+                    and an.origin(fields.get("created_at") or "").strip("<>") == "time.time()"
+                    and an.origin(fields.get("last_activity") or "").strip("<>") == "time.time()"
                 )
             ok = ok_key and ok_ret and ok_val
             detail = f"key from `{kdef}`, returns `{ret}`, record fields {fields}"
@@ -292,7 +301,8 @@ def check(P: Project, R: Report) -> None:
                 pres = id(node) not in eafp_false  # reached the end of the try without KeyError: the key was there
             if pres is True:
                 if eff == "touch":
-                    ok = evs == [f"touch[{sp}].last_activity=time.time()"] and ret == "True"
+                    pre_ = f"touch[{sp}].last_activity="
+                    ok = len(evs) == 1 and evs[0].startswith(pre_) and an.origin(evs[0][len(pre_):]).strip("<>") == "time.time()" and ret == "True"
                 else:
                     ok = evs == [f"del[{sp}]"] and ret == "True"
             elif pres is False:
@@ -401,8 +411,19 @@ def check(P: Project, R: Report) -> None:
     R.need(sel_var is not None, "cleanup_expired: the selection of expired keys is written in a shape this rule cannot read")
     R.ob("R4", "expired = keys with now - last_activity > max_age", sel_ok, ce.where, sel_detail, sample=f"R4 cleanup_expired: {sel_detail}")
     del_ok = single_pass is not None
+    # the selection under its other names (`stale = selected`, what a helper's result becomes when read at its call site)
+    sel_names = {sel_var}
+    grew_ = True
+    while grew_:
+        grew_ = False
+        for a_ in walk_local(ce.node):
+            if isinstance(a_, ast.Assign) and isinstance(a_.value, ast.Name) and a_.value.id in sel_names:
+                for t_ in a_.targets:
+                    if isinstance(t_, ast.Name) and t_.id not in sel_names:
+                        sel_names.add(t_.id)
+                        grew_ = True
     for s in walk_local(ce.node):
-        if isinstance(s, ast.For) and ast.unparse(s.iter) == sel_var and isinstance(s.target, ast.Name):
+        if isinstance(s, ast.For) and ast.unparse(s.iter) in sel_names and isinstance(s.target, ast.Name):
             if len(s.body) == 1 and isinstance(s.body[0], ast.Delete) and [ast.unparse(t) for t in s.body[0].targets] == [f"{S}[{s.target.id}]"]:
                 del_ok = True
     R.ob("R4", "deletes exactly the selected keys", del_ok, ce.where, f"no `for k in {sel_var}: del {S}[k]` loop")
@@ -410,7 +431,7 @@ def check(P: Project, R: Report) -> None:
     for st, node in out.ret:
         evs = [e for e in st.events if not e.startswith("del[")]
         ret = ast.unparse(node.value) if node.value is not None else "None"
-        R.ob("R4", "only deletions, returns the count", not evs and (ret == f"len({sel_var})" or (single_pass is not None and ret == single_pass)), f"{ce.module.rel}:{node.lineno}", f"effects {list(st.events)} returns {ret}")
+        R.ob("R4", "only deletions, returns the count", not evs and (ret in {f"len({x_})" for x_ in sel_names} or (single_pass is not None and ret == single_pass)), f"{ce.module.rel}:{node.lineno}", f"effects {list(st.events)} returns {ret}")
     R.ob("R4", "cleanup cannot fall off the end", not out.normal and bool(out.ret), ce.where, "")
 
     # ------------------------------------------------------------------ R5
